@@ -2,15 +2,14 @@ package nquads
 
 import (
 	"errors"
-	"fmt"
 	"io"
-	"net/url"
 	"unicode"
 
 	"github.com/dpb587/cursorio-go/cursorio"
 	"github.com/dpb587/cursorio-go/x/cursorioutil"
 	"github.com/dpb587/rdfkit-go/encoding/nquads/internal"
 	"github.com/dpb587/rdfkit-go/encoding/nquads/internal/grammar"
+	"github.com/dpb587/rdfkit-go/iri"
 	"github.com/dpb587/rdfkit-go/ontology/rdf/rdfiri"
 	"github.com/dpb587/rdfkit-go/ontology/xsd/xsdiri"
 	"github.com/dpb587/rdfkit-go/rdf"
@@ -138,14 +137,9 @@ DONE:
 
 	cr := r.commitForTextOffsetRange(uncommitted.AsDecodedRunes())
 
-	{
-		// apparently we should validate these are absolute according to the w3 test suite
-		urlParsed, err := url.Parse(urlString)
-		if err != nil {
-			return "", nil, grammar.R_IRIREF.ErrWithTextOffsetRange(fmt.Errorf("parse url: %v", err), cr)
-		} else if !urlParsed.IsAbs() {
-			return "", nil, grammar.R_IRIREF.ErrWithTextOffsetRange(errors.New("relative urls are not allowed"), cr)
-		}
+	// apparently we should validate these are absolute according to the w3 test suite
+	if !iri.IsAbsolute(urlString) {
+		return "", nil, grammar.R_IRIREF.ErrWithTextOffsetRange(errors.New("relative urls are not allowed"), cr)
 	}
 
 	return rdf.IRI(decoded), cr, nil
